@@ -21,7 +21,8 @@ Theorem C01_step_wf_partial : forall f o f',
 Proof. exact step_wf. Qed.
 Print Assumptions C01_step_wf_partial.
 
-(* FULL strength for the 13 operations other than eval (renameDimensions with ANY pairs — swap, self-rename,
+(* FULL strength for the 13 operations other than eval (reorderDimensions with ANY neworder: a repeated name raises since
+   fixes/C01-reorder-repeated-name.patch; renameDimensions with ANY pairs — swap, self-rename,
    chains, collisions — and arithmetic with ANY operand included): raises or well-formed, no side condition *)
 Theorem C01_step_wf_all_but_eval : forall f o f',
   wfb f = true -> (match o with OEval _ _ _ => false | _ => true end) = true -> operands_ok o = true ->
@@ -133,6 +134,14 @@ Example C01_apply_scalar_repaired :
   /\ exists f', step f_tyx (OApply [(6, AScalar); (4, ADict)]) = Ok f'
                /\ lookup 11 (fvars f') = Some (Var [4; 5; 6] [1; 3; 1] [(0, true)]).     (* x=np.mean, t=dict(func1d=np.diff) *)
 Proof. vm_compute. split; [reflexivity|]. eexists. split; reflexivity. Qed.
+
+(* the former witness of the reorder defect: a repeated name in neworder is refused *)
+Definition f_syy : file :=
+  File [(7, (2, false)); (5, (3, false))] [(14, Var [7; 5; 5] [2; 3; 3] [(0, true)])] [] [].
+Example C01_reorder_repeated_repaired :
+  wfb f_syy = true /\ step f_syy (OReorder [5; 5; 7]) = Raise /\ step f_syy (OReorder [5; 7]) = Raise
+  /\ exists f', step f_tyx (OReorder [6; 4; 5]) = Ok f' /\ lookup 11 (fvars f') = Some (Var [6; 4; 5] [4; 2; 3] [(0, true)]).
+Proof. vm_compute. repeat split; try reflexivity. eexists. split; reflexivity. Qed.
 
 (* ---- non-vacuity ------------------------------------------------------------------------------------ *)
 (* a six-step run inside the proved domain that really changes the structure: slice with two index arrays
